@@ -16,9 +16,9 @@ def main():
     all_ids = [json.loads(l)["id"] for l in open(os.path.join(VERIF, "properties.jsonl")) if l.strip()]
     checks = []
     for pid in all_ids:
-        if pid not in props.PROPS or pid not in mm.META:
+        if pid not in props.PROPS or pid not in props.METAS:
             continue
-        m = mm.META[pid]
+        m = props.METAS[pid]
         checks.append(dict(
             property_id=pid,
             quick_cmd="./check %s --tier quick" % pid,
